@@ -105,6 +105,9 @@ class PathEnd:
         self.writes = writes
 
 
+TAIL_USED = [False]
+
+
 def explore(code, start_off, stop_off, regs0, facts, inval, tag='', max_steps=24):
     """All paths from offset start_off until they reach stop_off (after at least one
     instruction) or leave the signature."""
@@ -129,6 +132,8 @@ def explore(code, start_off, stop_off, regs0, facts, inval, tag='', max_steps=24
         regs = list(regs)
         regs[Z.PC] = BASE + off
         tail = [BASE & 255, BASE >> 8] if (off == len(code) - 1 and not prefix and op in JP_OPS) else []
+        if tail:
+            TAIL_USED[0] = True
         mem = CodeMem(code, facts, tail, tag)
         st = Z.Step(prefix, op, regs, mem, Z.Cfg(machine=48), inval=inval)
         new = list(st.r)
@@ -204,7 +209,7 @@ class AccCase:
                 if b is not None and 0xA0 <= b <= 0xA7 and b != 0xA6:
                     rr = (Z.B, Z.C, Z.D, Z.E, Z.H, Z.L, None, Z.A)[b & 7]
                     fs.append(poly.bterm(cmpop('==', regs[rr], 0x40)))
-                    self.assumptions.append('%s: register %s (operand of AND %s) holds the EAR mask 0x40 - a loader precondition of this polarity-sensitive loop shape that _read_port does not test' % (self.key, Z.REGNAMES[rr], Z.REGNAMES[rr]))
+                    self.assumptions.append('%s: the register operand of the loop\'s AND r holds the EAR mask 0x40 - a loader precondition of this polarity-sensitive loop shape that _read_port does not test' % self.key)
         if self.key in ENTRY_ASSUMPTIONS:
             text, f = ENTRY_ASSUMPTIONS[self.key]
             fs.append(poly.bterm(f(regs)))
@@ -214,8 +219,6 @@ class AccCase:
         fs.append(sv(regs[Z.IFF]).t == 0)          # _read_port: registers[26] == 0
         if self.code[acc.c0] == 0xED:
             fs.append(sv(regs[Z.C]).t == 0xFE)     # _read_port: port & 0xFF == 0xFE
-        if self.code[-1] in JP_OPS and len(self.code) >= 2:
-            self.assumptions.append('%s: if the signature ends in a JP opcode, its operand (outside the matched bytes) is the address of the loop head' % self.key)
         return fs
 
     def flags_expected(self, cnt_after):
@@ -305,7 +308,10 @@ class AccCase:
                 # (INC/DEC leave the carry alone, so the invariant cannot and need not speak about it)
                 facts.append(poly.bterm(cmpop('==', (regs[Z.F] ^ self.flags_expected(cnt)) & live_f & 0xFE, 0)))
                 facts.append(poly.bterm(cmpop('!=', cnt, 0)))
+            TAIL_USED[0] = False
             paths = explore(self.code, acc.c0, acc.c0, regs, facts, inval)
+            if TAIL_USED[0]:
+                self.assumptions.append('%s: the signature ends in a JP opcode whose operand (outside the matched bytes) is taken to be the address of the loop head' % self.key)
             loops = []
             for pe in paths:
                 res, backend, model = check_sat(pre + facts + pe.pc)
@@ -468,6 +474,16 @@ def check_accelerators(rep, prop='C13'):
             rep.merge(part)
     if not keys:
         rep.errors.append('ACCELERATORS is empty')
+    # one line per kind of loader precondition, naming the entries it applies to
+    grouped = {}
+    rest = []
+    for a in rep.assumptions:
+        k, sep, text = a.partition(': ')
+        if sep and k in ACCELERATORS:
+            grouped.setdefault(text, []).append(k)
+        else:
+            rest.append(a)
+    rep.assumptions[:] = rest + ['accelerator table entries %s: %s' % (', '.join(sorted(ks)), text) for text, ks in sorted(grouped.items())]
     return rep.extra.get('accelerators', {})
 
 
